@@ -213,6 +213,11 @@ class BndEval:
                 if self.chars_src(c["args"][0], S) and self.ascii_only_predicate(c):
                     return True, "count of leading ASCII chars of the same string"
                 return False, "count() of a char prefix that may contain multi-byte chars"
+            if (c.get("fn") == "std::iter::Iterator::count") and "TakeWhile<std::str::Bytes" in " ".join(c.get("targs", [])):
+                # number of leading bytes that all equal ASCII constants: each is a whole char, so the count is a boundary
+                if self.bytes_src(c["args"][0], S) and self.ascii_only_predicate(c, byte=True):
+                    return True, "count of leading ASCII bytes of the same string"
+                return False, "count() of a byte prefix that may end inside a multi-byte char"
             if re.search(r"Iterator::position$|::position$", res):
                 return False, "Iterator::position() (an element count, not a byte offset)"
             return False, "result of %s" % res.split("::")[-1]
@@ -255,6 +260,13 @@ class BndEval:
                                 return True, "match start + pattern.len()"
                             if d[0] == "call" and re.search(r"::len$", d[2].get("res") or "") and pat[0] == "lit" and self.strid(d[2]["args"][0]) == ("const", pat[1]):
                                 return True, "match start + pattern.len()"
+                # y = c.len_utf8() where (x, c) is one char_indices() item: the offset just behind that char
+                yl = op_local(y)
+                for d in self.f.whole_defs(yl) if yl is not None else []:
+                    if d[0] == "call" and (d[2].get("res") or "").endswith("char::methods::<impl char>::len_utf8") and d[2]["args"]:
+                        bx, bc = self.tuple_field_base(x, "0"), self.tuple_field_base(d[2]["args"][0], "1")
+                        if bx is not None and bx == bc:
+                            return True, "char_indices() offset + len_utf8() of the same item"
                 # y is a boundary of the suffix S[x..]
                 suff = self.offset_in_suffix(y, S, x)
                 if suff:
@@ -273,6 +285,27 @@ class BndEval:
                     return True, "len() - len(suffix)"
             return False, "difference %s - %s" % (self.atom(a), self.atom(b))
         return False, "arithmetic %s" % op
+
+    def tuple_field_base(self, op, idx, depth=0):
+        """the tuple local whose field `idx` the operand is (a copy of)"""
+        p = op_place(op)
+        if p is None or depth > 6:
+            return None
+        fs = proj_fields(place_projs(p))
+        if fs and fs[-1] == ("tuple", idx) and len(fs) == 1:
+            return self._copy_root(place_local(p))
+        if not place_projs(p):
+            ds = self.f.whole_defs(place_local(p))
+            if len(ds) == 1 and ds[0][0] == "assign" and ds[0][3][0] == "use":
+                return self.tuple_field_base(ds[0][3][1], idx, depth + 1)
+        return None
+
+    def _copy_root(self, l, depth=0):
+        ds = self.f.whole_defs(l)
+        if depth < 6 and len(ds) == 1 and ds[0][0] == "assign" and ds[0][3][0] == "use" and op_place(ds[0][3][1]) is not None \
+                and not place_projs(op_place(ds[0][3][1])):
+            return self._copy_root(op_local(ds[0][3][1]), depth + 1)
+        return l
 
     def atom(self, op):
         k = op_const(op)
@@ -575,7 +608,22 @@ class BndEval:
                 return True
         return False
 
-    def ascii_only_predicate(self, call):
+    def bytes_src(self, op, S, depth=0):
+        l = op_local(op)
+        if l is None or depth > 8:
+            return False
+        for d in self.f.whole_defs(l):
+            if d[0] == "call":
+                c = d[2]
+                if (c.get("res") or "").endswith("<impl str>::bytes"):
+                    return self.strid(c["args"][0]) == S
+                if c["args"] and self.bytes_src(c["args"][0], S, depth + 1):
+                    return True
+            if d[0] == "assign" and d[3][0] == "use" and self.bytes_src(d[3][1], S, depth + 1):
+                return True
+        return False
+
+    def ascii_only_predicate(self, call, byte=False):
         """every closure in the adaptor chain only compares its char parameter with ASCII char constants"""
         ok_any = False
         for cid, loc in call.get("clos", []):
@@ -590,7 +638,7 @@ class BndEval:
             for a, b in cmps:
                 ks = [op_const(x) for x in (a, b)]
                 ks = [k for k in ks if k is not None]
-                if len(ks) != 1 or ks[0].get("t") != "char" or int(ks[0].get("v", "999")) >= 128:
+                if len(ks) != 1 or ks[0].get("t") != ("u8" if byte else "char") or int(ks[0].get("v", "999")) >= 128:
                     return False
             ok_any = True
         return ok_any
@@ -939,6 +987,8 @@ def r7_sub_underflow(ctx):
                     break
             if why is None:
                 why = _len_idioms(ev, f, bb, a, c, ka, kc)
+            if why is None:
+                why = _checked_sub_before(ev, f, bb, ka, kc)
             fn_short = f.id
             key = re.sub(r"_\d+", "_", "R7e|%s|%s - %s" % (fn_short, ev.descr_val(a), ev.descr_val(c)))
             if why:
@@ -949,6 +999,36 @@ def r7_sub_underflow(ctx):
     r.counts["unsigned_checked_subtractions"] = n
     r.floor("unsigned checked subtractions", n, 10)
     return r
+
+
+def _checked_sub_before(ev, f, bb, ka, kc):
+    """`a.checked_sub(k)` with the same operands succeeded on every path to the site (its Some / `?`-Continue edge dominates)"""
+    dom = ev.dom.get(bb, set())
+    for cb, c in f.calls():
+        if cb not in dom or not re.search(r"::checked_sub$", c.get("res") or "") or len(c["args"]) != 2:
+            continue
+        if ev.key(c["args"][0]) != ka:
+            continue
+        k2 = ev.key(c["args"][1])
+        if not (k2 == kc or (k2[0] == "const" and kc[0] == "const" and str(k2[1]).isdigit() and str(kc[1]).isdigit() and int(k2[1]) >= int(kc[1]))):
+            continue
+        if ka[0] == "local" and not _unmodified_between(f, ka[1], cb, bb, ev.dom):
+            continue
+        d = place_local(c["dest"])
+        carriers = {d: 1}          # local -> discriminant value of the success variant
+        for _b2, c2 in f.calls():
+            if (c2.get("fn") or "").endswith("Try::branch") and c2["args"] and op_local(c2["args"][0]) == d:
+                carriers[place_local(c2["dest"])] = 0      # ControlFlow::Continue
+        for b3, si, pl, rv, sp in f.assigns():
+            if rv[0] == "discr" and place_local(rv[1]) in carriers and isinstance(pl, int):
+                want = carriers[place_local(rv[1])]
+                for b4, blk in enumerate(f.blocks):
+                    t4 = blk["t"]
+                    if t4[0] == "switch" and op_local(t4[1]) == pl:
+                        ok_t = [tg for v, tg in t4[2] if v == want] or ([t4[3]] if t4[3] is not None and want == 1 else [])
+                        if ok_t and (ok_t[0] == bb or ok_t[0] in dom):
+                            return "a dominating checked_sub on the same operands succeeded"
+    return None
 
 
 TRIM_FNS = re.compile(r"<impl str>::(trim|trim_start|trim_end|trim_matches|trim_start_matches|trim_end_matches|strip_prefix|strip_suffix|trim_left|trim_right)$")
@@ -971,6 +1051,31 @@ def _len_idioms(ev, f, bb, a, c, ka, kc):
                 for d in f.whole_defs(sid[1]):
                     if d[0] == "call" and TRIM_FNS.search(d[2].get("res") or "") and ev.strid(d[2]["args"][0]) == S:
                         return "len() of a string minus len() of a trimmed part of it"
+    # v.len() - <count of an iterator over v narrowed by filter / take / skip adaptors>
+    if ka[0] == "call" and re.search(r"::len$", ka[1] or "") and op_local(c) is not None:
+        da = _call_def_through(f, a)
+        dc = [d for d in f.whole_defs(op_local(c)) if d[0] == "call"] or _call_def_through(f, c)
+        if da and dc and (dc[0][2].get("fn") or "").endswith("Iterator::count"):
+            coll = _coll_id(f, da[0][2]["args"][0])
+            ta = " ".join(dc[0][2].get("targs", []))
+            widening = re.search(r"\b(Chain|FlatMap|Flatten|Cycle|Repeat|Zip|Interleave|Intersperse)<", ta)
+            srcs = {_coll_id(f, ["cp", x]) for x in _iter_sources(f, dc[0][2]["args"][0])}
+            if coll is not None and not widening and coll in srcs and not _mutated(f, coll):
+                return "len() minus the count of a narrowed iterator over the same collection"
+    # v.len() - K behind `v.len() > K` / `>= K`: two len() calls on a collection this function never mutates are equal
+    if ka[0] == "call" and re.search(r"::len$", ka[1] or "") and kc[0] == "const" and str(kc[1]).isdigit():
+        da = _call_def_through(f, a)
+        coll = _coll_id(f, da[0][2]["args"][0]) if da else None
+        if coll is not None and not _mutated(f, coll):
+            for tgt, lo, hi, strict in _cmp_facts(f):
+                if tgt not in ev.dom.get(bb, set()) or hi is None:
+                    continue
+                dh = _call_def_through(f, hi)
+                klo = ev.key(lo)
+                if dh and re.search(r"::len$", dh[0][2].get("res") or "") and _coll_id(f, dh[0][2]["args"][0]) == coll \
+                        and klo[0] == "const" and str(klo[1]).isdigit() and strict in (True, False):
+                    if int(klo[1]) + (1 if strict is True else 0) >= int(kc[1]):
+                        return "len() - K behind a dominating len() > K on the same, unmutated collection"
     # v.len() - 1 inside a loop over v / after a push into v
     if kc == ("const", "1") and ka[0] == "call" and re.search(r"::len$", ka[1] or ""):
         da = _call_def_through(f, a)
@@ -993,6 +1098,57 @@ def _len_idioms(ev, f, bb, a, c, ka, kc):
                         if coll is not None and coll in _iter_sources(f, t2[1]["args"][0]):
                             return "len() - 1 inside a for loop over the same collection (non-empty while the body runs)"
     return None
+
+
+LEN_PRESERVING = re.compile(r"::(sort\w*|reverse|iter_mut|as_mut_slice|as_mut|swap|fill\w*|rotate_\w+|select_nth_unstable\w*|get_mut|first_mut|last_mut|deref_mut|index_mut)$")
+
+
+def _coll_id(f, op, depth=0):
+    """identity of the collection an operand views: a local, or a field path of a local (`self.skipped`)"""
+    l = op_local(op)
+    if l is None or depth > 12:
+        return None
+    p = op_place(op)
+    pj = [e for e in place_projs(p) if e != "*"] if p is not None else []
+    if pj:
+        return (_coll_id(f, ["cp", place_local(p)], depth + 1) or ("local", place_local(p)), str(pj))
+    ds = f.whole_defs(l)
+    if len(ds) == 1 and ds[0][0] == "assign":
+        rv = ds[0][3]
+        if rv[0] == "use" and op_place(rv[1]) is not None:
+            return _coll_id(f, rv[1], depth + 1)
+        if rv[0] == "ref":
+            return _coll_id(f, ["cp", rv[2]], depth + 1)
+    if len(ds) == 1 and ds[0][0] == "call" and ds[0][2]["args"] and re.search(r"Deref(Mut)?>?::deref(_mut)?$|::as_slice$|::as_ref$", ds[0][2].get("res") or ""):
+        return _coll_id(f, ds[0][2]["args"][0], depth + 1)
+    return ("local", l)
+
+
+def _mutated(f, cid):
+    """is the collection handed out mutably to anything that can change its length?"""
+    muts = set()
+    for _b, _si, pl, rv, _sp in f.assigns():
+        if rv[0] == "ref" and rv[1] == "mut" and _coll_id(f, ["cp", rv[2]]) == cid and isinstance(pl, int):
+            muts.add(pl)
+    if not muts:
+        return False
+    changed = True
+    while changed:
+        changed = False
+        for _b, _si, pl, rv, _sp in f.assigns():
+            if isinstance(pl, int) and pl not in muts and rv[0] in ("use", "ref") and \
+                    (op_local(rv[1]) if rv[0] == "use" else place_local(rv[2])) in muts:
+                muts.add(pl)
+                changed = True
+        for _b, c in f.calls():
+            if re.search(r"DerefMut>?::deref_mut$", c.get("res") or "") and c["args"] and op_local(c["args"][0]) in muts \
+                    and place_local(c["dest"]) not in muts:
+                muts.add(place_local(c["dest"]))
+                changed = True
+    for _b, c in f.calls():
+        if any(op_local(a) in muts for a in c["args"]) and not LEN_PRESERVING.search(c.get("res") or c.get("fn") or ""):
+            return True
+    return False
 
 
 def _call_def_through(f, op, depth=0):
@@ -1100,6 +1256,15 @@ def r7_index_bounds(ctx):
                         break
                 if why is None:
                     why = _range_loop_var(ev, f, bb, idx, coll)
+                if why is None and ki == ("const", "0"):
+                    why = _nonempty_dominating(ev, f, bb, c["args"][0])
+                if why is None:
+                    why = _below_len(ev, f, bb, idx, c["args"][0], coll, facts)
+            elif rng is not None and coll is not None and rng[0] == "Range":
+                a_, b_ = rng[1], rng[2]
+                end_ok = _len_of(ev, f, b_, coll) or _below_len(ev, f, bb, b_, c["args"][0], coll, facts)
+                if end_ok and _le(ev, f, bb, a_, b_, facts):
+                    why = "range end within the collection (%s) and start <= end" % (end_ok if isinstance(end_ok, str) else "len()")
             if why:
                 r.ok(sample={"site": crate.span_str(c["span"]), "index": "%s[%s]" % (cname, idescr), "proof": why} if len(r.samples) < 6 else None)
             else:
@@ -1108,6 +1273,114 @@ def r7_index_bounds(ctx):
     r.counts["vec_index_sites"] = n
     r.floor("Vec / slice index sites", n, 8)
     return r
+
+
+def _below_len(ev, f, bb, op, coll_op, coll, facts, depth=0):
+    """op < len(coll) at the site: a dominating comparison, the Some edge of `coll.get(op)`, or a variable that starts from
+    such a value and is only ever decreased"""
+    k = ev.key(op)
+    var = k[1] if k[0] == "local" else None
+    dom = ev.dom.get(bb, set())
+    for tgt, lo, hi, strict in facts:
+        if strict is True and tgt in dom and ev.key(lo) == k and _len_of(ev, f, hi, coll) and _unmodified_between(f, var, tgt, bb, ev.dom):
+            return "dominating `i < len()`"
+    cid = _coll_id(f, coll_op)
+    for cb, c in f.calls():
+        if cb in dom and re.search(r"(<impl \[T\]>|Vec::<T, A>)::get$", c.get("res") or "") and len(c["args"]) == 2 \
+                and ev.key(c["args"][1]) == k and _coll_id(f, c["args"][0]) == cid and not _mutated(f, cid):
+            d = place_local(c["dest"])
+            for b3, si, pl, rv, sp in f.assigns():
+                if rv[0] == "discr" and place_local(rv[1]) == d and isinstance(pl, int):
+                    for b4, blk in enumerate(f.blocks):
+                        t4 = blk["t"]
+                        if t4[0] == "switch" and op_local(t4[1]) == pl:
+                            ok_t = [tg for v, tg in t4[2] if v == 1] or ([t4[3]] if t4[3] is not None else [])
+                            if ok_t and (ok_t[0] == bb or ok_t[0] in dom) and _unmodified_between(f, var, cb, bb, ev.dom):
+                                return "behind the Some edge of get() with the same index"
+    # a variable initialised from a bounded value and otherwise only decreased
+    if var is not None and depth < 2:
+        ds = f.whole_defs(var)
+        inits, decs, other = [], 0, 0
+        for d in ds:
+            if d[0] == "assign" and d[3][0] == "use":
+                src = d[3][1]
+                pl_ = op_place(src)
+                if pl_ is not None and place_projs(pl_):
+                    # (SubWithOverflow(var, k)).0
+                    bd = f.whole_defs(place_local(pl_))
+                    if len(bd) == 1 and bd[0][0] == "assign" and bd[0][3][0] == "bin" and bd[0][3][1].startswith("Sub") \
+                            and op_local(bd[0][3][2]) == var:
+                        decs += 1
+                        continue
+                    other += 1
+                else:
+                    inits.append((d[1], src))
+            elif d[0] == "assign" and d[3][0] == "bin" and d[3][1].startswith("Sub") and op_local(d[3][2]) == var:
+                decs += 1
+            elif d[0] == "call" and re.search(r"::saturating_sub$|::wrapping_sub$", d[2].get("res") or "") and d[2]["args"] and op_local(d[2]["args"][0]) == var:
+                decs += 1
+            else:
+                other += 1
+        if inits and not other and (decs or len(inits) == 1):
+            if all(_below_len(BndEval(ev.crate, f, ib), f, ib, src, coll_op, coll, facts, depth + 1) for ib, src in inits):
+                return "starts below len() and is only decreased"
+    return None
+
+
+def _le(ev, f, bb, a, b, facts):
+    """a <= b at the site"""
+    ka, kb = ev.key(a), ev.key(b)
+    if ka == ("const", "0") or ka == kb:
+        return True
+    dom = ev.dom.get(bb, set())
+    va = ka[1] if ka[0] == "local" else None
+    vb = kb[1] if kb[0] == "local" else None
+    for tgt, lo, hi, strict in facts:
+        if tgt not in dom or hi is None or strict == "ne":
+            continue
+        klo, khi = ev.key(lo), ev.key(hi)
+        if khi != kb:
+            continue
+        if klo == ka or (strict is True and ka[0] == "Add" and ((ka[1] == klo and ka[2] == ("const", "1")) or (ka[2] == klo and ka[1] == ("const", "1")))):
+            inner = klo[1] if klo[0] == "local" else None
+            if _unmodified_between(f, inner, tgt, bb, ev.dom) and _unmodified_between(f, vb, tgt, bb, ev.dom) and _unmodified_between(f, va, tgt, bb, ev.dom):
+                return True
+    return False
+
+
+def _nonempty_dominating(ev, f, bb, coll_op):
+    """the collection is known to be non-empty at the site: the false edge of `is_empty()` or the Some edge of an
+    element-producing call (first / last / min / max / next of an iterator over it) dominates, and nothing shrinks it"""
+    cid = _coll_id(f, coll_op)
+    if cid is None or _mutated(f, cid):
+        return None
+    dom = ev.dom.get(bb, set())
+    from .r8 import _switch_after_call
+    for cb, c in f.calls():
+        if cb not in dom or not c["args"]:
+            continue
+        res = c.get("res") or ""
+        fnn = c.get("fn") or ""
+        if re.search(r"::is_empty$", res) and _coll_id(f, c["args"][0]) == cid:
+            sw = _switch_after_call(f, cb)
+            if sw and (sw[2] == bb or sw[2] in dom):
+                return "behind the false edge of is_empty() on the same collection"
+        if re.search(r"::(first|last|min|max|min_by|max_by|min_by_key|max_by_key|next|next_back|peek)$", res + " " + fnn):
+            srcs = {_coll_id(f, ["cp", x]) for x in _iter_sources(f, c["args"][0])} | {_coll_id(f, c["args"][0])}
+            if cid not in srcs:
+                continue
+            if re.search(r"\b(Filter|FilterMap|Skip|SkipWhile|TakeWhile|StepBy)<", " ".join(c.get("targs", []))):
+                pass  # an element of a narrowed iterator is still an element of the collection
+            d = place_local(c["dest"])
+            for b3, si, pl, rv, sp in f.assigns():
+                if rv[0] == "discr" and place_local(rv[1]) == d and isinstance(pl, int):
+                    for b4, blk in enumerate(f.blocks):
+                        t4 = blk["t"]
+                        if t4[0] == "switch" and op_local(t4[1]) == pl:
+                            ok_t = [tg for v, tg in t4[2] if v == 1] or ([t4[3]] if t4[3] is not None else [])
+                            if ok_t and (ok_t[0] == bb or ok_t[0] in dom):
+                                return "behind the Some edge of an element of the same collection"
+    return None
 
 
 def _range_loop_var(ev, f, bb, idx, coll):
